@@ -1,3 +1,609 @@
 package main
 
-func cmdCheck(args []string) int { return 2 }
+import (
+	"encoding/json"
+	"flag"
+	"fmt"
+	"os"
+	"path/filepath"
+	"sort"
+	"strconv"
+	"strings"
+	"sync"
+	"time"
+
+	"golang.org/x/tools/go/ssa"
+)
+
+type unitRun struct {
+	key    string
+	module string
+	un     *Unit
+	obls   []*Obl // obligations that belong to the property
+}
+
+type lockEntry struct {
+	Status string  `json:"status"`
+	Solver string  `json:"solver,omitempty"`
+	Time   float64 `json:"time_s,omitempty"`
+}
+
+type lockFile map[string]map[string]lockEntry // property -> obligation -> entry
+
+func readLock() lockFile {
+	lf := lockFile{}
+	data, err := os.ReadFile(filepath.Join(verifRoot(), "obligations.lock.json"))
+	if err == nil {
+		json.Unmarshal(data, &lf)
+	}
+	return lf
+}
+
+type finding struct {
+	Status     string `json:"status"` // known | fixed
+	Property   string `json:"property"`
+	Obligation string `json:"obligation"`
+	What       string `json:"what"`
+	Commit     string `json:"commit,omitempty"`
+}
+
+func readFindings() []finding {
+	var out []finding
+	data, err := os.ReadFile(filepath.Join(verifRoot(), "known_findings.jsonl"))
+	if err != nil {
+		return nil
+	}
+	for _, ln := range strings.Split(string(data), "\n") {
+		ln = strings.TrimSpace(ln)
+		if ln == "" || strings.HasPrefix(ln, "#") {
+			continue
+		}
+		var f finding
+		if json.Unmarshal([]byte(ln), &f) == nil {
+			out = append(out, f)
+		}
+	}
+	return out
+}
+
+func contractMentions(fc *FuncContract, prop string) bool {
+	for _, f := range fc.Facets {
+		if f == prop {
+			return true
+		}
+	}
+	for _, f := range fc.Safety {
+		if f == prop {
+			return true
+		}
+	}
+	for _, cl := range fc.Clauses {
+		for _, p := range cl.Props {
+			if p == prop {
+				return true
+			}
+		}
+	}
+	return false
+}
+
+func oblBelongs(o *Obl, fc *FuncContract, prop string) bool {
+	if o.Kind == "cover" {
+		return true
+	}
+	if len(o.Props) > 0 {
+		for _, p := range o.Props {
+			if p == prop {
+				return true
+			}
+		}
+		return false
+	}
+	// base obligations belong to every facet of the function
+	if fc != nil {
+		for _, f := range fc.Facets {
+			if f == prop {
+				return true
+			}
+		}
+	}
+	return false
+}
+
+// moduleMentions: cheap textual pre-filter so that modules without contracts for the property are not loaded.
+func moduleMentions(m module, prop string) bool {
+	found := false
+	filepath.Walk(filepath.Join(repoRoot(), m.dir), func(path string, info os.FileInfo, err error) error {
+		if err == nil && !info.IsDir() && info.Name() == "zz_contracts_verif.go" {
+			if data, err := os.ReadFile(path); err == nil && strings.Contains(string(data), prop) {
+				found = true
+			}
+		}
+		return nil
+	})
+	return found
+}
+
+type checkResult struct {
+	prop       string
+	tier       string
+	units      []*unitRun
+	outside    []string
+	loadErr    []string
+	funcs      int
+	wall       float64
+	solver     *Solver
+	assumed    map[string]bool
+	notes      map[string]bool
+	missingFns []string
+}
+
+func runProperty(prop, tier string, timeout int) *checkResult {
+	res := &checkResult{prop: prop, tier: tier, assumed: map[string]bool{}, notes: map[string]bool{}}
+	start := time.Now()
+	work := filepath.Join(verifRoot(), ".work", prop)
+	os.RemoveAll(work)
+	res.solver = newSolver(work, timeout, 16, tier == "thorough")
+	var names []string
+	for n := range modules {
+		names = append(names, n)
+	}
+	sort.Strings(names)
+	var wg sync.WaitGroup
+	for _, mn := range names {
+		m := modules[mn]
+		if !moduleMentions(m, prop) {
+			continue
+		}
+		p, err := loadModule(m, []string{"./..."})
+		if err != nil {
+			res.loadErr = append(res.loadErr, err.Error())
+			continue
+		}
+		specs, err := loadSpecs(p)
+		if err != nil {
+			res.loadErr = append(res.loadErr, err.Error())
+			continue
+		}
+		funcs := findFuncs(p)
+		var keys []string
+		for k, fc := range specs.Funcs {
+			if contractMentions(fc, prop) && !fc.Trusted {
+				keys = append(keys, k)
+			}
+		}
+		// interface contracts checked against declared implementations (refinement)
+		for _, im := range specs.Impls {
+			ifaceKey := im.Iface
+			if !strings.Contains(ifaceKey, ".") {
+				ifaceKey = im.Pkg + "." + ifaceKey
+			}
+			ty := im.Type
+			star := strings.HasPrefix(ty, "*")
+			ty = strings.TrimPrefix(ty, "*")
+			tpkg := im.Pkg
+			if i := strings.Index(ty, "."); i >= 0 {
+				tpkg, ty = ty[:i], ty[i+1:]
+			}
+			for ik, ic := range specs.Ifaces {
+				if !strings.HasPrefix(ik, ifaceKey+".") || !contractMentions(ic, prop) {
+					continue
+				}
+				meth := strings.TrimPrefix(ik, ifaceKey+".")
+				var mk string
+				if star {
+					mk = fmt.Sprintf("%s.(*%s).%s", tpkg, ty, meth)
+				} else {
+					mk = fmt.Sprintf("%s.(%s).%s", tpkg, ty, meth)
+				}
+				if funcs[mk] == nil {
+					// promoted or value-receiver method
+					alt := fmt.Sprintf("%s.(%s).%s", tpkg, ty, meth)
+					if funcs[alt] != nil {
+						mk = alt
+					}
+				}
+				comb := &FuncContract{Key: mk, Pkg: ic.Pkg, Facets: ic.Facets, File: ic.File, Params: map[string]string{}, Opts: map[string]string{}, Safety: ic.Safety}
+				comb.Names = append([]string{"this"}, ic.Names...)
+				comb.ResNames = ic.ResNames
+				comb.Clauses = append(comb.Clauses, ic.Clauses...)
+				if own := specs.Funcs[mk]; own != nil {
+					comb.Clauses = append(comb.Clauses, own.Clauses...)
+					comb.Facets = append(comb.Facets, own.Facets...)
+					comb.Safety = append(comb.Safety, own.Safety...)
+					for k, v := range own.Params {
+						comb.Params[k] = v
+					}
+					for k, v := range own.Opts {
+						comb.Opts[k] = v
+					}
+					comb.Arith = own.Arith
+				}
+				specs.Funcs[mk] = comb
+			}
+		}
+		keys = keys[:0]
+		for k, fc := range specs.Funcs {
+			if contractMentions(fc, prop) && !fc.Trusted {
+				keys = append(keys, k)
+			}
+		}
+		sort.Strings(keys)
+		for _, k := range keys {
+			if onlyFilter != "" && !strings.Contains(k, onlyFilter) {
+				continue
+			}
+			fc := specs.Funcs[k]
+			fn := funcs[k]
+			if fn == nil {
+				if strings.HasPrefix(fc.File, repoRoot()) {
+					res.missingFns = append(res.missingFns, k)
+				}
+				continue
+			}
+			un := verifyFunc(p, specs, fn, fc, UnitOpts{Safety: len(fc.Safety) > 0})
+			ur := &unitRun{key: k, module: mn, un: un}
+			res.units = append(res.units, ur)
+			res.funcs++
+			if un.outside != "" {
+				res.outside = append(res.outside, k+": "+un.outside)
+				continue
+			}
+			for _, o := range un.obls {
+				if oblBelongs(o, fc, prop) {
+					ur.obls = append(ur.obls, o)
+				}
+			}
+			for a := range un.assumed {
+				res.assumed[a] = true
+			}
+			for n := range un.notes {
+				res.notes[n] = true
+			}
+			wg.Add(1)
+			go func(ur *unitRun) {
+				defer wg.Done()
+				res.solver.solveAll(ur.un, ur.obls)
+			}(ur)
+		}
+		// lemmas
+		for _, l := range specs.Lemmas {
+			if l.Axiom {
+				continue
+			}
+			mine := false
+			for _, pp := range l.Props {
+				if pp == prop {
+					mine = true
+				}
+			}
+			if !mine {
+				continue
+			}
+			un := verifyLemma(p, specs, l)
+			ur := &unitRun{key: "lemma " + l.Name, module: mn, un: un}
+			res.units = append(res.units, ur)
+			if un.outside != "" {
+				res.outside = append(res.outside, ur.key+": "+un.outside)
+				continue
+			}
+			ur.obls = un.obls
+			for a := range un.assumed {
+				res.assumed[a] = true
+			}
+			wg.Add(1)
+			go func(ur *unitRun) {
+				defer wg.Done()
+				res.solver.solveAll(ur.un, ur.obls)
+			}(ur)
+		}
+	}
+	wg.Wait()
+	res.wall = time.Since(start).Seconds()
+	return res
+}
+
+func slug(s string) string {
+	r := sanitize(s)
+	r = strings.ReplaceAll(r, "|", "_")
+	if len(r) > 150 {
+		r = fmt.Sprintf("%s_%x", r[:130], hashStr(s))
+	}
+	return r
+}
+
+func writeReplay(prop string, o *Obl, reason string, smt string) (string, bool) {
+	dir := filepath.Join(verifRoot(), "replays", prop)
+	os.MkdirAll(dir, 0o755)
+	path := filepath.Join(dir, slug(o.Name)+".json")
+	model := o.Model
+	if len(model) > 20000 {
+		model = model[:20000] + "\n...(truncated)"
+	}
+	rec := map[string]any{
+		"property": prop, "obligation": o.Name, "kind": o.Kind, "function": o.Fn, "position": o.Pos, "contract_text": o.Text,
+		"outcome": o.Status, "solver": o.Solver, "solver_output": o.Output, "model": model, "reason": reason,
+		"smt_query": smt, "replay_outcome": "no-failing-input-found", "candidate_model_only": o.Candidate,
+	}
+	reproduced := false
+	if rm := findReplayTemplate(o.Name); rm != nil {
+		ro := runReplay(rm, filepath.Join(verifRoot(), ".work", prop, "replay"))
+		rec["replay_scenario"] = rm.What
+		rec["go_test_source"] = ro.Source
+		rec["overlay"] = ro.Overlay
+		rec["cmd"] = ro.Cmd
+		rec["output"] = ro.Output
+		if ro.Reproduced {
+			rec["replay_outcome"] = "reproduced"
+			reproduced = true
+		} else {
+			rec["replay_outcome"] = "not-reproduced"
+		}
+	}
+	data, _ := json.MarshalIndent(rec, "", " ")
+	os.WriteFile(path, data, 0o644)
+	return path, reproduced
+}
+
+func violationLine(prop, path string, reproduced bool) string {
+	if reproduced {
+		return fmt.Sprintf("VIOLATION property=%s replay=%s", prop, path)
+	}
+	return fmt.Sprintf("VIOLATION property=%s replay=%s no-failing-input-found", prop, path)
+}
+
+func cmdCheck(args []string) int {
+	fs := flag.NewFlagSet("check", flag.ExitOnError)
+	timeout := fs.Int("timeout", 0, "solver timeout (s); default 10 quick / 60 thorough")
+	only := fs.String("only", "", "developer use: restrict to units whose key contains this text")
+	verbose := fs.Bool("v", false, "list every obligation")
+	doLock := fs.Bool("lock", false, "rewrite the property's section of obligations.lock.json from this run (developer use only)")
+	fs.Parse(args)
+	rest := fs.Args()
+	if len(rest) < 1 {
+		fmt.Fprintln(os.Stderr, "usage: gocv check <property> [quick|thorough]")
+		return 2
+	}
+	prop := rest[0]
+	tier := "quick"
+	if len(rest) > 1 {
+		tier = rest[1]
+	}
+	if t := os.Getenv("VERIF_TIER"); t != "" && len(rest) < 2 {
+		tier = t
+	}
+	seed := 0
+	if s := os.Getenv("VERIF_SEED"); s != "" {
+		seed, _ = strconv.Atoi(s)
+	}
+	to := *timeout
+	if to == 0 {
+		to = 10
+		if tier == "thorough" {
+			to = 60
+		}
+	}
+	onlyFilter = *only
+	res := runProperty(prop, tier, to)
+	if *verbose {
+		for _, ur := range res.units {
+			for _, o := range ur.obls {
+				fmt.Printf("  %-11s %-10s %5.2fs %s\n", o.Status, o.Solver, o.Time, o.Name)
+			}
+			for n := range ur.un.notes {
+				fmt.Printf("     note[%s]: %s\n", ur.key, n)
+			}
+		}
+	}
+	lock := readLock()
+	findings := readFindings()
+	known := map[string]finding{}
+	for _, f := range findings {
+		if f.Status == "known" && f.Property == prop {
+			known[f.Obligation] = f
+		}
+	}
+	toolError := false
+	for _, e := range res.loadErr {
+		fmt.Println("gocv: LOAD ERROR:", e)
+		toolError = true
+	}
+	expected := lock[prop]
+	seen := map[string]bool{}
+	var total, discharged, covers, coversOK int
+	var violations []string
+	var knownHit []string
+	var undecided []string
+	var samples []any
+	newLock := map[string]lockEntry{}
+	for _, ur := range res.units {
+		for _, o := range ur.obls {
+			seen[o.Name] = true
+			if o.Kind == "cover" {
+				covers++
+				if o.Status == "discharged" {
+					coversOK++
+				} else {
+					fmt.Printf("gocv: TOOL ERROR vacuity guard failed: %s (%s)\n", o.Name, o.Output)
+					toolError = true
+				}
+				newLock[o.Name] = lockEntry{Status: o.Status, Solver: o.Solver, Time: o.Time}
+				continue
+			}
+			if o.Status == "error" {
+				fmt.Printf("gocv: TOOL ERROR %s: %s\n", o.Name, o.Output)
+				toolError = true
+				continue
+			}
+			if kf, ok := known[o.Name]; ok {
+				if o.Status != "discharged" {
+					knownHit = append(knownHit, fmt.Sprintf("KNOWN-FINDING: property=%s %s [%s]", prop, kf.What, o.Name))
+					continue
+				}
+				// a listed finding that now discharges: fine, count it normally
+			}
+			total++
+			newLock[o.Name] = lockEntry{Status: o.Status, Solver: o.Solver, Time: o.Time}
+			if len(samples) < 6 {
+				samples = append(samples, map[string]any{"obligation": o.Name, "kind": o.Kind, "contract": o.Text, "status": o.Status, "solver": o.Solver, "time_s": o.Time, "smt_bytes": fileSize(o.SmtFile)})
+			}
+			if o.Status == "discharged" {
+				discharged++
+				continue
+			}
+			_, wasLocked := expected[o.Name]
+			smt, _ := os.ReadFile(o.SmtFile)
+			switch {
+			case o.Status == "failed" && !(o.Candidate && o.Kind == "safety" && !wasLocked):
+				path, rep := writeReplay(prop, o, "solver returned a counterexample (sat) for the negated obligation", string(smt))
+				violations = append(violations, violationLine(prop, path, rep))
+				fmt.Printf("FAILED %s  %s: sat (%.2f s)  at %s\n   contract: %s\n", o.Name, o.Solver, o.Time, o.Pos, o.Text)
+			case wasLocked || o.Kind != "safety":
+				path, rep := writeReplay(prop, o, "obligation no longer proved: "+o.Output, string(smt))
+				violations = append(violations, violationLine(prop, path, rep))
+				fmt.Printf("FAILED %s  undischarged (%s)  at %s\n   contract: %s\n", o.Name, o.Output, o.Pos, o.Text)
+			default:
+				undecided = append(undecided, o.Name+": "+o.Output)
+				total--
+			}
+		}
+	}
+	// obligations that used to be proved but are no longer generated
+	for name := range expected {
+		if seen[name] || strings.HasSuffix(name, "/cover:exit-reachable") {
+			continue
+		}
+		if _, ok := known[name]; ok {
+			continue
+		}
+		// safety obligations carry ordinals that may shift; only contract obligations are required to persist
+		if strings.Contains(name, "/safety/") {
+			continue
+		}
+		o := &Obl{Name: name, Kind: "missing", Status: "missing", Output: "obligation in obligations.lock.json was not generated by this run (function gone, left the supported subset, or contract no longer binds)"}
+		reason := o.Output
+		for _, out := range res.outside {
+			if strings.HasPrefix(name, strings.SplitN(out, ":", 2)[0]+"/") {
+				reason += "; " + out
+			}
+		}
+		path, rep := writeReplay(prop, o, reason, "")
+		violations = append(violations, violationLine(prop, path, rep))
+		fmt.Printf("FAILED %s  not generated: %s\n", name, reason)
+		total++
+	}
+	for _, out := range res.outside {
+		fmt.Println("OUTSIDE-REACH function=" + out)
+	}
+	for _, m := range res.missingFns {
+		fmt.Println("OUTSIDE-REACH function=" + m + ": contract orphaned (no such function in the tree)")
+	}
+	if len(res.solver.disagreements) > 0 {
+		toolError = true
+	}
+	fmt.Printf("gocv: property %s (%s): %d functions under contract, %d obligations: %d discharged (%s — %.1f s solver time), %d failed, %d known findings, %d undecided new safety obligations; covers sat %d/%d; wall %.1f s\n",
+		prop, tier, res.funcs, total, discharged, backendSummary(res.solver.byBackend), res.solver.totalSecs, len(violations), len(knownHit), len(undecided), coversOK, covers, res.wall)
+	for _, k := range knownHit {
+		fmt.Println(k)
+	}
+	for _, v := range violations {
+		fmt.Println(v)
+	}
+	if *doLock {
+		lock[prop] = newLock
+		data, _ := json.MarshalIndent(lock, "", " ")
+		os.WriteFile(filepath.Join(verifRoot(), "obligations.lock.json"), data, 0o644)
+		fmt.Println("gocv: lock file section rewritten for", prop)
+	}
+	// evidence
+	var assumptions []string
+	for a := range res.assumed {
+		assumptions = append(assumptions, a)
+	}
+	for n := range res.notes {
+		assumptions = append(assumptions, "note: "+n)
+	}
+	assumptions = append(assumptions, standingAssumptions...)
+	sort.Strings(assumptions)
+	var fnames []string
+	for _, ur := range res.units {
+		fnames = append(fnames, ur.key)
+	}
+	var trusted []string
+	for a := range res.assumed {
+		trusted = append(trusted, a)
+	}
+	sort.Strings(trusted)
+	trusted = append([]string{"gocv VC generator and contract parser (unverified; guarded by the must-fail corpus)", "go/packages + go/ssa (x/tools v0.29.0)", "z3 4.8.12, z3 5.1.0, cvc5 1.0"}, trusted...)
+	ev := map[string]any{
+		"property_id": prop, "tier": tier, "seed": seed, "level": "proof",
+		"coverage": map[string]any{
+			"obligations": total, "discharged": discharged,
+			"checker_cmd":               fmt.Sprintf("./check %s %s", prop, tier),
+			"trusted_base":              trusted,
+			"functions_under_contract":  fnames,
+			"by_backend":                res.solver.byBackend,
+			"solver_time_s":             round2(res.solver.totalSecs),
+			"samples":                   samples,
+			"covers_sat":                fmt.Sprintf("%d/%d", coversOK, covers),
+			"outside_reach":             res.outside,
+			"known_findings":            knownHit,
+			"undecided_new_safety":      undecided,
+			"bounded":                   []string{},
+			"solver_timeout_s":          to,
+			"all_solvers_must_agree":    tier == "thorough",
+			"explanation":               "weakest-precondition VCs generated from the go/ssa form of /repo's working tree against //@ contracts; one SMT query per named obligation, raced on z3 4.8.12, z3 5.1.0, cvc5 1.0 (two configurations)",
+		},
+		"assumptions": assumptions,
+		"wall_s":      round2(res.wall),
+		"violations":  len(violations),
+	}
+	os.MkdirAll(filepath.Join(verifRoot(), "evidence"), 0o755)
+	data, _ := json.MarshalIndent(ev, "", " ")
+	os.WriteFile(filepath.Join(verifRoot(), "evidence", prop+".json"), data, 0o644)
+	if toolError {
+		return 2
+	}
+	if len(violations) > 0 {
+		return 1
+	}
+	if total == 0 {
+		fmt.Println("gocv: TOOL ERROR no obligations generated for", prop)
+		return 2
+	}
+	return 0
+}
+
+var onlyFilter string
+
+var standingAssumptions = []string{
+	"goroutine interleavings are not modelled (sequential contracts; lock discipline obligations stand in, monitor/ownership soundness is a trusted meta-theorem)",
+	"machine integers are mathematical integers in arith-int functions (no overflow obligations); arith-bv functions are exact",
+	"bodies of functions outside /repo are replaced by assumed contracts or havoc; reflection, unsafe, cgo/syscalls, finalizers/GC timing, OOM are not modelled",
+	"no unsafe aliasing between opaque pointers and struct fields; sequentially consistent sync/atomic",
+	"appencryption and server/go build against module-cache copies of their sibling modules (byte-identical to /repo's copies at pin time)",
+}
+
+func backendSummary(m map[string]int) string {
+	var ks []string
+	for k := range m {
+		ks = append(ks, k)
+	}
+	sort.Strings(ks)
+	var parts []string
+	for _, k := range ks {
+		parts = append(parts, fmt.Sprintf("%s %d", k, m[k]))
+	}
+	return strings.Join(parts, ", ")
+}
+
+func round2(f float64) float64 { return float64(int(f*100+0.5)) / 100 }
+
+func fileSize(p string) int64 {
+	if fi, err := os.Stat(p); err == nil {
+		return fi.Size()
+	}
+	return 0
+}
+
+var _ = ssa.BuilderMode(0)
